@@ -11,11 +11,13 @@ package main
 
 import (
 	"bytes"
+	"encoding/binary"
 	"encoding/hex"
 	stdjson "encoding/json"
 	"errors"
 	"fmt"
 	"io"
+	"math"
 	"reflect"
 	"runtime"
 	"strconv"
@@ -568,7 +570,126 @@ func c03Recursive(c *Ctx) {
 	}
 }
 
+// c03Integers: integers of every varint length (1..10 bytes), each 7-bit group distinct so that a byte written from
+// the wrong bits shows, in every Go integer kind and under the zig-zag and fixed tags, plain, repeated, as map key and
+// value and behind a pointer: round trip, Size, and the bytes against a varint encoder written out here
+type intLattice struct {
+	U   uint64           `protobuf:"varint,1,opt"`
+	I   int64            `protobuf:"varint,2,opt"`
+	N   int              `protobuf:"varint,3,opt"`
+	UN  uint             `protobuf:"varint,4,opt"`
+	Z   int64            `protobuf:"zigzag64,5,opt"`
+	ZN  int              `protobuf:"zigzag64,6,opt"`
+	Z32 int32            `protobuf:"zigzag32,7,opt"`
+	U32 uint32           `protobuf:"varint,8,opt"`
+	I32 int32            `protobuf:"varint,9,opt"`
+	R   []uint64         `protobuf:"varint,10,rep"`
+	M   map[uint64]int64 `protobuf:"bytes,11,rep" protobuf_key:"varint,1,opt" protobuf_val:"varint,2,opt"`
+	P   *int64           `protobuf:"varint,12,opt"`
+	F   uint64           `protobuf:"fixed64,13,opt"`
+	S   string           `protobuf:"bytes,14,opt"`
+}
+
+func c03Integers(c *Ctx) { protoIntegers(c, "C03") }
+
+func protoIntegers(c *Ctx, prop string) {
+	var lat []uint64
+	for n := 1; n <= 10; n++ {
+		var v uint64
+		for j := 0; j < n && j < 9; j++ {
+			v |= uint64(j+1+n) & 0x7f << (7 * j)
+		}
+		if n == 10 {
+			v |= 1 << 63
+		}
+		lat = append(lat, v, v|1<<(7*uint(min(n, 9))-1))
+	}
+	lat = append(lat, 0x1234567890AB, 1<<42+1<<30, 1<<49-1, 1<<42, 1<<35-1, 1<<56, math.MaxUint64, 1<<63)
+	uv := func(b []byte, v uint64) []byte {
+		for v >= 0x80 {
+			b = append(b, byte(v)|0x80)
+			v >>= 7
+		}
+		return append(b, byte(v))
+	}
+	zz := func(v int64) uint64 { return uint64(v<<1) ^ uint64(v>>63) }
+	for i, v := range lat {
+		for _, neg := range []bool{false, true} {
+			sv := int64(v)
+			if neg {
+				sv = -int64(v >> 1)
+			}
+			in := intLattice{U: v, I: sv, N: int(sv), UN: uint(v), Z: sv, ZN: int(sv), Z32: int32(sv), U32: uint32(v), I32: int32(sv), R: []uint64{v, 1, v}, M: map[uint64]int64{v: sv}, P: &sv, F: v, S: "end"}
+			k := protoCase{What: fmt.Sprintf("integer lattice %d neg=%v", i, neg)}
+			fail := func(api, w, g string) { c.Diverge(prop, api+"(integers of every varint length)", w, g, "", k) }
+			c.Case()
+			c.Eval(1)
+			var b []byte
+			var err error
+			size := -1
+			if p := protect(func() { b, err = proto.Marshal(in); size = proto.Size(in) }); p != "" || err != nil {
+				fail("proto.Marshal", "nil error", fmt.Sprintf("%v %s", err, p))
+				continue
+			}
+			if size != len(b) {
+				fail("proto.Size", fmt.Sprintf("len(Marshal)=%d", len(b)), fmt.Sprint(size))
+			}
+			// the expected bytes: fields in number order, zero values left out
+			var want []byte
+			put := func(num int, x uint64) {
+				if x != 0 {
+					want = uv(uv(want, uint64(num)<<3), x)
+				}
+			}
+			put(1, v)
+			put(2, uint64(sv))
+			put(3, uint64(int64(int(sv))))
+			put(4, uint64(uint(v)))
+			put(5, zz(sv))
+			put(6, zz(int64(int(sv))))
+			put(7, uint64(uint32(int32(sv)<<1)^uint32(int32(sv)>>31)))
+			put(8, uint64(uint32(v)))
+			put(9, uint64(int64(int32(sv))))
+			want = uv(uv(want, 12<<3), uint64(sv))
+			if v != 0 {
+				want = binary.LittleEndian.AppendUint64(uv(want, 13<<3|1), v)
+			}
+			want = append(uv(uv(want, 14<<3|2), 3), "end"...)
+			// (the package writes the repeated and map fields behind the others)
+			for _, e := range in.R {
+				want = uv(uv(want, 10<<3), e)
+			}
+			var entry []byte
+			if v != 0 {
+				entry = uv(uv(entry, 1<<3), v)
+			}
+			if sv != 0 {
+				entry = uv(uv(entry, 2<<3), uint64(sv))
+			}
+			want = append(uv(uv(want, 11<<3|2), uint64(len(entry))), entry...)
+			if !bytes.Equal(b, want) {
+				fail("proto.Marshal", hex.EncodeToString(want), hex.EncodeToString(b))
+			}
+			var out intLattice
+			if p := protect(func() { err = proto.Unmarshal(b, &out) }); p != "" || err != nil {
+				fail("proto.Unmarshal(Marshal(v))", "nil error", fmt.Sprintf("%v %s", err, p))
+				continue
+			}
+			if out.P == nil {
+				out.P = new(int64)
+			}
+			ip, op := *in.P, *out.P
+			in.P, out.P = nil, nil
+			if !reflect.DeepEqual(in, out) || ip != op {
+				fail("proto.Unmarshal(Marshal(v))", fmt.Sprintf("%+v", in), fmt.Sprintf("%+v", out))
+			}
+			in.P = &sv
+		}
+	}
+}
+
 func c03CompositeMaps(c *Ctx) {
+	c03Integers(c)
 	c03Recursive(c)
 	c03Generated(c)
 	keys := [][]any{
@@ -677,7 +798,7 @@ func cmEqual(a, b reflect.Value) bool {
 func c03Replay(c *Ctx, raw stdjson.RawMessage) {
 	var k protoCase
 	if stdjson.Unmarshal(raw, &k) == nil {
-		if strings.HasPrefix(k.What, "composite map") || strings.HasPrefix(k.What, "generated-code types") || strings.HasPrefix(k.What, "recursive types") {
+		if strings.HasPrefix(k.What, "composite map") || strings.HasPrefix(k.What, "generated-code types") || strings.HasPrefix(k.What, "recursive types") || strings.HasPrefix(k.What, "integer lattice") {
 			c03CompositeMaps(c)
 			return
 		}
@@ -923,6 +1044,10 @@ func c12Replay(c *Ctx, raw stdjson.RawMessage) {
 		return
 	}
 	if stdjson.Unmarshal(raw, &k) != nil {
+		return
+	}
+	if strings.HasPrefix(k.What, "integer lattice") {
+		protoIntegers(c, "C12")
 		return
 	}
 	if k.Bytes != "" {
@@ -1239,6 +1364,38 @@ func c07Append(c *Ctx, v *allocVec) {
 	}
 }
 
+// c07ByteArrays: a [N]byte field given payloads shorter than, as long as and longer than N (up to a megabyte): an error or a
+// value, the fields next to the array untouched either way, nothing written outside the array
+func c07ByteArrays(c *Ctx) {
+	type tgt struct {
+		G1 [8]byte
+		A  [4]byte
+		G2 [8]byte
+		B  [16]byte
+		G3 [8]byte
+	}
+	guard := [8]byte{0xa5, 0xa5, 0xa5, 0xa5, 0xa5, 0xa5, 0xa5, 0xa5}
+	for _, field := range []int{2, 4} {
+		for _, n := range []int{0, 1, 3, 4, 5, 8, 15, 16, 17, 40, 4096, 1 << 20} {
+			in := append(uvarintBytes(uint64(field<<3|2)), uvarintBytes(uint64(n))...)
+			in = append(in, bytes.Repeat([]byte{0x5a}, n)...)
+			k := protoCase{What: fmt.Sprintf("byte array field %d given %d bytes", field, n)}
+			v := &tgt{G1: guard, G2: guard, G3: guard}
+			var err error
+			c.Case()
+			c.Eval(1)
+			if p := protect(func() { err = proto.Unmarshal(in, v) }); p != "" {
+				c.Diverge("C07", "proto.Unmarshal(byte array, payload of another length)", "error or value, no panic", p, "", k)
+				continue
+			}
+			if v.G1 != guard || v.G2 != guard || v.G3 != guard || (field == 2 && v.B != [16]byte{}) || (field == 4 && v.A != [4]byte{}) {
+				c.Diverge("C07", "proto.Unmarshal(byte array, payload of another length)", "the neighbouring fields untouched",
+					fmt.Sprintf("%x %x %x %x %x err=%v", v.G1, v.A, v.G2, v.B, v.G3, err), "", k)
+			}
+		}
+	}
+}
+
 func c07Vector(c *Ctx, raw stdjson.RawMessage) {
 	var av allocVec
 	if stdjson.Unmarshal(raw, &av) == nil && av.Kind != "" && av.Pre > 0 {
@@ -1400,6 +1557,10 @@ func c07Replay(c *Ctx, raw stdjson.RawMessage) {
 			c07Scan(c, k, k.Recs)
 			return
 		}
+		if strings.HasPrefix(k.What, "byte array field") {
+			c07ByteArrays(c)
+			return
+		}
 		if k.Alloc != nil {
 			c07Append(c, k.Alloc)
 			return
@@ -1410,7 +1571,7 @@ func c07Replay(c *Ctx, raw stdjson.RawMessage) {
 
 func init() {
 	register("C03", &Driver{Vector: c03Vector, Replay: c03Replay, Extra: c03CompositeMaps})
-	register("C12", &Driver{Vector: c12Vector, Replay: c12Replay})
+	register("C12", &Driver{Vector: c12Vector, Replay: c12Replay, Extra: func(c *Ctx) { protoIntegers(c, "C12") }})
 	register("C16", &Driver{Vector: c16Vector, Replay: c16Replay})
-	register("C07", &Driver{Vector: c07Vector, Replay: c07Replay})
+	register("C07", &Driver{Vector: c07Vector, Replay: c07Replay, Extra: c07ByteArrays})
 }
